@@ -481,6 +481,9 @@ def run_unit(name, outdir, rlimit=None, timeout=900, extra=None):
             undecided.append(rec)
         elif d.get('code') or 'not supported' in low or 'unsupported' in low or low.startswith('cannot') or 'mismatched types' in low:
             undecided.append(rec)
+        elif not re.search(r'not satisfied|assertion failed|possible (arithmetic|division|bit shift|truncation)|underflow|overflow|out of bounds|decreases|might fail|failed', low):
+            # allow-list: only genuine proof failures count as refutations; parse / type / mode errors of the generated file are tool-level (undecided)
+            undecided.append(rec)
         else:
             failures.append(rec)
     res['failures'] = failures
